@@ -59,6 +59,11 @@ def fold_table(repo):
     for key, (name, insn) in rec.fields["container"].items():
         stubs = []
         for st in insn.fields["operands"]:
+            missing = [f_ for f_ in ("pattern_char", "bit_indexes") if f_ not in st.fields]
+            if missing:
+                from ..report import Defect
+                raise Defect(f"insns::{st.cls.name}.__init__", f"the {st.cls.name} operand of '{name}' has no attribute {missing}: Instruction.compile_insn reads stub.pattern_char and stub.bit_indexes "
+                                                               "for every operand, so every instruction with such an operand dies with AttributeError", "operand stub attributes")
             stubs.append((st.cls.name, st.fields["pattern_char"], list(st.fields["bit_indexes"]), st.fields.get("unsigned")))
         table[name] = (insn.fields["opcode_pattern"], stubs, insn.fields.get("name"))
     return table
@@ -708,6 +713,25 @@ def rule_T2s(ck):
             if val != want or (isinstance(got, tuple) and got[1] != b"") or ps[0].reported():
                 ck.violation("insns::RegisterOperandStub.encode", f"a register field given '{text}' encodes {got!r} (errors {[e[2] for p in ps for e in p.reported()]}), expected register number {want} and no extension word",
                              construct=f"register stub {text}", expected=repr((want, b"")), found=repr(got))
+    # ImmediateOperandStub: 'emt #X' is 'emt X' plus a warning (the hash is unnecessary, the number is the same)
+    res = {}
+    for text in ("X", "#X"):
+        def thunk(text=text):
+            sh = Shapes(I)
+            op = sh.xexpr(XV, "X") if text == "X" else sh.un("immediate", sh.xexpr(XV, "X"))
+            stub = I.instantiate(I.module_get("insns", "ImmediateOperandStub"), ["i", [7, 6, 5, 4, 3, 2, 1, 0], True], {})
+            st = {"insn": insn_tok(sh), "emit_address": DOT, "rel_address": REL}
+            return I.call_method(stub, "encode", [op, st])
+        try:
+            ps = I.explore(thunk)
+        except Unsupported as ex:
+            raise Unknown(f"ImmediateOperandStub on {text}: {ex}") from None
+        ok_paths = [p for p in ps if p.kind == "return" and not p.reported()]
+        res[text] = (sorted({repr(p.value) for p in ok_paths}), sorted({e[2] for p in ps for e in p.effects if e[0] == "report" and e[1] == "warning"}))
+        ck.instance(("immediate-stub", text), {"operand": text, "accepted results": res[text][0], "warnings": res[text][1]}, fn="insns::ImmediateOperandStub.encode")
+    if not res["X"][0] or res["#X"][0] != res["X"][0]:
+        ck.violation("insns::ImmediateOperandStub.encode", f"an inline number written with a hash ('emt #X') encodes {res['#X'][0]}, without it ('emt X') {res['X'][0]}: the hash is unnecessary but harmless, "
+                                                           "both spellings are the same number", construct="immediate stub: hash")
     # FP11AccumulatorOperandStub with a 2-bit field
     for text, want in [("ac0", 0), ("AC1", 1), ("ac3", 3), ("ac4", None), ("ac5", None), ("ac6", None), ("r1", None), ("X", None), ("ac", None), ("ac10", None)]:
         def thunk(text=text):
